@@ -233,6 +233,10 @@ func (r *Route) config(addWeight bool) []string {
 // serve a single route. maxSlots must be a power of ten.
 const maxSlots = 1e4 // 10000
 
+// maxRingScale limits the size of the ring to maxRingScale*maxSlots for
+// routes with targets whose share is smaller than one of maxSlots slots.
+const maxRingScale = 10
+
 // weighTargets computes the share of traffic each target receives based
 // on its weight and the weight of the other targets.
 //
@@ -333,19 +337,43 @@ func (r *Route) weighTargets() {
 	// (coloring, optimizing, ...) but I don't know which. Happy to make this
 	// more formal, if possible.
 	//
-	slots := make(byN, len(r.Targets))
-	frac := make([]float64, len(r.Targets))
-	usedSlots := 0
-	for i, t := range r.Targets {
-		f := float64(maxSlots) * t.Weight
-		n := int(f)
-		if n == 0 && t.Weight > 0 {
-			n = 1
+	// alloc hands out the slots of a ring of the given size.
+	var slots byN
+	var frac []float64
+	var usedSlots int
+	alloc := func(size float64) {
+		slots = make(byN, len(r.Targets))
+		frac = make([]float64, len(r.Targets))
+		usedSlots = 0
+		for i, t := range r.Targets {
+			f := size * t.Weight
+			n := int(f)
+			if n == 0 && t.Weight > 0 {
+				n = 1
+			}
+			slots[i].i = i
+			slots[i].n = n
+			frac[i] = f - float64(n)
+			usedSlots += n
 		}
-		slots[i].i = i
-		slots[i].n = n
-		frac[i] = f - float64(n)
-		usedSlots += n
+	}
+	size := float64(maxSlots)
+	alloc(size)
+
+	// Targets whose share is smaller than one slot get a whole slot. Several
+	// of them make the ring longer than maxSlots which deflates the share of
+	// all other targets (one target with a fixed weight of 99% and 200 dynamic
+	// targets: 9900 of 10100 slots = 98%). Use a ring which is a multiple of
+	// maxSlots then, fine enough for the smallest share (within limits).
+	if usedSlots > int(size) {
+		minWeight := math.Inf(1)
+		for _, t := range r.Targets {
+			if t.Weight > 0 && t.Weight < minWeight {
+				minWeight = t.Weight
+			}
+		}
+		size *= math.Min(math.Ceil(1/(minWeight*size)), maxRingScale)
+		alloc(size)
 	}
 
 	// Rounding every share down loses up to one slot per target. With many
@@ -354,7 +382,7 @@ func (r *Route) weighTargets() {
 	// fixed weight of 20% and 1234 dynamic targets: 2000 of 9404 slots =
 	// 21.3%). Hand the lost slots to the targets which lost the largest
 	// fraction so that every target is within one slot of its weight.
-	if missing := int(maxSlots) - usedSlots; missing > 0 {
+	if missing := int(size) - usedSlots; missing > 0 {
 		var order []int
 		for i, t := range r.Targets {
 			if t.Weight > 0 {
